@@ -723,8 +723,17 @@ def run(ctx: Any, prog: Program) -> None:
     # "Only bit 0 is defined" is no reason to rebuild the field from is_compressed: the other bits of a file that has them are lost by a
     # plain read and save.
     svg = ms['save']
-    gl_packs = [c for c in ast.walk(svg) if isinstance(c, ast.Call) and dotted(c.func) == 'struct.pack' and c.args and isinstance(c.args[0], ast.Constant) and isinstance(c.args[0].value, str)
-                and c.args[0].value.replace(' ', '') in ('<4sHH', '4sHH')]
+    def _fmt10(e: ast.AST) -> Optional[str]:
+        if isinstance(e, ast.Constant) and isinstance(e.value, str):
+            return e.value
+        if isinstance(e, ast.Name):
+            try:
+                v_ = fold.global_(e.id)
+            except Exception:
+                return None
+            return v_ if isinstance(v_, str) else getattr(v_, 'fmt', None)
+        return None
+    gl_packs = [c for c in ast.walk(svg) if isinstance(c, ast.Call) and dotted(c.func) == 'struct.pack' and c.args and (_fmt10(c.args[0]) or '').replace(' ', '') in ('<4sHH', '4sHH')]
     ctx.shape('C10.B4', len(gl_packs) == 1 and len(gl_packs[0].args) == 4, bsp, svg, 'the pack of a game-lump directory entry (`<4s HH`: id, flags, version) was not found once in save()', func='BSP.save', text='game-lump directory fields')
     for gp_ in gl_packs[:1]:
         if len(gp_.args) != 4:
